@@ -10,6 +10,7 @@
 import SmsVerif.Model.Own
 import SmsVerif.Model.Layout
 import SmsVerif.Gen.Layouts
+import SmsVerif.Gen.Lifecycle
 
 namespace SmsVerif.C12
 open SmsVerif SmsVerif.Own
@@ -256,9 +257,24 @@ def decOpProv (f : OwnFacts) : DecOp → Option Prov
 def decodesFresh (f : OwnFacts) (p : PduDesc) : Bool :=
   p.dec.all fun op => match decOpProv f op with | some pr => pr == .fresh | none => true
 
-/-- per-run obligation: with the library's ownership facts, no decode statement of any PDU type
-    keeps a reference into the caller's buffer -/
-theorem C12_decoders_fresh : Gen.allPdus.all (decodesFresh Own.facts) = true := by decide +kernel
+/-- the ownership facts with the parser entries *read off the source* (`Gen.optionValueProv`, regenerated
+    on every run): anything but a value the syntax shows to be freshly allocated counts as aliasing -/
+def provOf (fn : String) : Prov :=
+  match Gen.optionValueProv.lookup fn with
+  | some "fresh" => .fresh
+  | _ => .input
+
+def factsFromSource : OwnFacts :=
+  { Own.facts with
+    parseOptions := provOf "smgp.ParseOptions",
+    readOptions := if provOf "smgp.ReadOptions" = .fresh ∧ provOf "smpp.ReadTLVs" = .fresh ∧ provOf "smpp.ReadTLVs1" = .fresh
+      then .fresh else .input,
+    writerBytes := if Gen.copyOuts.all (·.2) && Gen.copyOuts.length == 2 then .fresh else .pool }
+
+/-- per-run obligation: with the facts read off the current source, no decode statement of any PDU
+    type keeps a reference into the caller's buffer, and the hand-written record agrees with them -/
+theorem C12_decoders_fresh :
+    Gen.allPdus.all (decodesFresh factsFromSource) = true ∧ factsFromSource = Own.facts := by decide +kernel
 
 /-- with the pinned `smgp.ParseOptions` (values sliced from `rawData`) the obligation fails, for
     exactly the PDU type that parses its options from `b.Bytes()` -/
